@@ -41,7 +41,7 @@ func writeManifest(path string) error {
 		Reason     string `json:"reason"`
 	}
 	var checks []check
-	var nas []na
+	nas := []na{}
 	var served []string
 	for _, id := range allPropertyIDs() {
 		pd := findProperty(id)
